@@ -254,7 +254,14 @@ def run(ctx, ck):
     ck.ob('R-EXH.pulse-iter', g.qual, ok, g.loc(), why or 'no loop over the connection list')
     if 'mininec.Connected_Geobj._iter' in m.funcs:
         it = m.func('mininec.Connected_Geobj._iter')
-        seqs = generator_sequences(ctx, it)
+        if any(isinstance(n_, (ast.Yield, ast.YieldFrom)) for n_ in walk_no_nested(it.node)):
+            seqs = generator_sequences(ctx, it)
+        else:
+            # not a generator: what it returns is iterated
+            from ..symx import SymExec
+            seqs = [(p_.conds, p_.ret) for p_ in SymExec(ctx, it, depth=2, bind_loops=True).run() if p_.end != 'raise']
+            if any(r_ is None for c_, r_ in seqs):
+                seqs = []
         ok = bool(seqs)
         for conds_, seq in seqs:
             if isinstance(seq, ast.List) and not seq.elts and any(k_ == 'loop-skipped' for k_, t_ in conds_):
